@@ -263,6 +263,9 @@ class Renderer(object):
             return "(%s$%s)" % (call, self.domx(d))
         if e == "mac":
             return "%s(%s)" % (self.p["macs"][x["mi"] - 1]["name"], ", ".join(self.ex(a) for a in x["args"]))
+        if e == "lmac":     # the macro gets another body inside this block only
+            m = self.p["macs"][x["mi"] - 1]
+            return "{ macro %s(%s) == (%s); %s }" % (m["name"], ", ".join(m["ps"]), self.ex(x["mbody"]), self.ex(x["body"]))
         if e == "throw":
             if x.get("args"):       # an exception that carries a value: ExP(v) builds the exception domain
                 return "throw %s(%s)" % (x["exn"], ", ".join(self.ex(a) for a in x["args"]))
